@@ -274,6 +274,7 @@ func (r *FnRun) exec(st *State, fr *frame, b *ssa.BasicBlock, i int) {
 			st.regs[x] = vInt(m, x.Type())
 		case *ssa.MakeChan:
 			c := st.allocRef()
+			st.writeLeaf("nrecv", []string{c}, "Int", "0")
 			st.regs[x] = vInt(c, x.Type())
 		case *ssa.Slice:
 			st.regs[x] = r.execSlice(st, fr, x)
@@ -1001,6 +1002,7 @@ func (r *FnRun) jump(st *State, fr *frame, from, to *ssa.BasicBlock) {
 		}
 		ms := r.modsetBlocks(fr.fn, li.blocks[to])
 		r.applyHavoc(st, ms)
+		r.rangeIndexBound(st, to)
 		for _, c := range invs {
 			t, err := r.evalClause(st, fr, c, r.rangeIndexVars(st, to), "loop invariant")
 			if err != nil {
@@ -1067,6 +1069,32 @@ func (r *FnRun) rangeIndexVars(st *State, head *ssa.BasicBlock) map[string]*V {
 		}
 	}
 	return nil
+}
+
+// rangeIndexBound: at the head of a range-over-slice loop the hidden index (before the increment) is below the
+// length the loop compares against: it is -1 initially and otherwise passed that very comparison one iteration ago.
+func (r *FnRun) rangeIndexBound(st *State, head *ssa.BasicBlock) {
+	var cell *ssa.Alloc
+	for _, ins := range head.Instrs {
+		if s, ok := ins.(*ssa.Store); ok {
+			if a, ok := s.Addr.(*ssa.Alloc); ok && a.Comment == "rangeindex" {
+				cell = a
+			}
+		}
+	}
+	if cell == nil {
+		return
+	}
+	for _, ins := range head.Instrs {
+		if b, ok := ins.(*ssa.BinOp); ok && b.Op == token.LSS {
+			if lv, ok := st.regs[b.Y]; ok && lv.K == KInt {
+				if cv, ok := st.cells[cell]; ok {
+					st.assume("(< " + cv.S + " " + lv.S + ")")
+					st.assume("(>= " + lv.S + " 0)")
+				}
+			}
+		}
+	}
 }
 
 func (r *FnRun) loopInvariants(fr *frame, ord int) []*Clause {
@@ -1434,6 +1462,12 @@ func (s *State) eventsAdvance() {
 	s.assume("(>= " + n1 + " " + n0 + ")")
 	s.ghost["ev.n"] = n1
 	s.callsAdvance()
+	{
+		old := s.comp("nrecv", 1, "Int")
+		s.havocLeaf("nrecv")
+		nw := s.comp("nrecv", 1, "Int")
+		s.assume("(forall ((k Int)) (! (>= (select " + nw + " k) (select " + old + " k)) :pattern ((select " + nw + " k))))")
+	}
 	for _, leaf := range evLeaves {
 		old := s.comp(leaf, 1, "Int")
 		s.havocLeaf(leaf)
@@ -1450,13 +1484,13 @@ func (s *State) callsAdvance() {
 	s.assume("(forall ((k Int)) (! (>= (select " + nw + " k) (select " + old + " k)) :pattern ((select " + nw + " k))))")
 }
 
-var evLeaves = []string{"ev.kind", "ev.a0", "ev.a1", "ev.a2", "ev.a3", "ev.a4", "ev.a5"}
+var evLeaves = []string{"ev.kind", "ev.a0", "ev.a1", "ev.a2", "ev.a3", "ev.a4", "ev.a5", "ev.a6", "ev.a7"}
 
 // emit appends one event to the trace.
 func (s *State) emit(kind string, args ...string) {
 	n := s.ghost["ev.n"]
 	s.writeLeaf("ev.kind", []string{n}, "Int", s.run.eng.strID(kind))
-	for i := 0; i < 6; i++ {
+	for i := 0; i < 8; i++ {
 		a := "0"
 		if i < len(args) {
 			a = args[i]
